@@ -27,4 +27,22 @@ TEXT = {
         "level_note": "Assumes the chrono shim (day-number view, midnight times, Gregorian axioms, +/-Days overflow precondition), existence of an eligible day in the search direction inside chrono's range, static instead of dynamic dispatch (R7). Trusted: Verus/Z3, the extractor.",
         "design_ref": "DESIGN.md §7 C04",
     },
+    "C05": {
+        "technique": "Verus contracts on the extracted add_bus_days / lag / add_days / bus_date_range / cal_date_range bodies (loop invariants relate the i8 counter to a recursive business-day count); lemmas over the contracts",
+        "level_text": "Proof: the bodies are extracted from /repo each run and verified for an arbitrary calendar, every start date and every i8 day count: add_bus_days returns the unique date with exactly |n| business days between it and the start (recursive count spec), then the first settlement-eligible day onward in the direction of n (forward for 0); non-business start is Err; lag follows its three-case rule; bus_date_range is exactly the ordered business days of the calendar range; add_days is shift-then-adjust. Inverse law, n=0 identity and uniqueness of the n-th business day are lemmas over the contracts. i8 counter overflow freedom is part of the obligations.",
+        "level_note": "Assumes the chrono shim, and that the requested n-th business day / settlement day exists inside chrono's range. Trusted: Verus/Z3, the extractor.",
+        "design_ref": "DESIGN.md §7 C05",
+    },
+    "C08": {
+        "technique": "Verus contracts on the extracted add_months / get_roll / get_roll_by_day / get_imm / is_imm / get_eom / is_eom / is_leap_year / ndt bodies against a month-index oracle",
+        "level_text": "Proof: for every start date, every i32 month offset whose target year is representable, every roll kind and day 1-31, every modifier: add_months returns roll(modifier) of the date with month index = start index + m and day = requested roll day capped at the month length (own day / n / last / first / third Wednesday); get_imm is the unique Wednesday with day 15..21; get_eom is the last day (loop with invariant and termination); is_leap_year is the Gregorian rule. The oracle is month-index arithmetic, independent of the code's abs/signum/rem_euclid carry logic; all integer overflow, unwrap and panic sites are obligations.",
+        "level_note": "Assumes the chrono shim (from_ymd_opt is Some iff the civil date exists; Gregorian axioms) and specs for i32::abs/signum/rem_euclid/try_from. Trusted: Verus/Z3, the extractor.",
+        "design_ref": "DESIGN.md §7 C08",
+    },
+    "C20": {
+        "technique": "Verus: every panic!/unwrap/expect/integer operation in the extracted bodies is an obligation (R8: panic! -> requires false)",
+        "level_text": "Proof (partial scope): the date arithmetic (add_days, add_bus_days, lag, roll, add_months, get_roll, get_roll_by_day, get_eom, bus_date_range, cal_date_range) has no reachable panic, failed unwrap or integer overflow for any i8 day count, any month offset whose target year is representable, roll days 1-31, any modifier and flag, any calendar.",
+        "level_note": "Partial: JSON text, Ccy/NamedCal string handling are not covered (listed as uncovered). Assumes the chrono shim; preconditions are exactly: results stay in chrono's range and an eligible day exists in the search direction.",
+        "design_ref": "DESIGN.md §7 C20",
+    },
 }
